@@ -72,6 +72,11 @@ def run_c16(rep, tier, seed):
                 other = ds.copy()
                 other["mesh"] = ds["mesh"][::-1]
                 other_keep = other             # noqa: F841  keep it alive during the call
+            if k % 3 == 1:
+                # one Array object held under two keys of a group (its name is the key of the last insertion): both
+                # variables must come back, each under its key
+                g0 = ds[list(ds.keys())[-1]]
+                g0["second_key"] = g0[list(g0.keys())[-1]]
             before = snap(ds)
             origin = osyris.Vector(*[float(x) * fo for x in sc["o"][:sc.get("nd", 3)]], unit=uo)
             rep.case(klass=(sc["kind"], i, uo, ur, sc.get("nd", 3)))
